@@ -32,10 +32,18 @@ package cluster
 //     open connection holds unread bytes (this is the invariant that makes the first point hold
 //     for the NEXT call whatever it is: VerifC20bStep starts from any pool content allowed by it).
 //
-// Natively (replay of counterexamples) the real google.golang.org/protobuf runs; in the engine
-// pb.Marshal/pb.Unmarshal are replaced by the token codec at the bottom of this file.
+//   * a backup: the leader streams ONE gzip member after its OK answer (and keeps the connection
+//     open, or closes it); the caller's writer receives exactly that member when Compress=true
+//     and exactly the decoded image when Compress=false; a stream that is cut, stalls or is not
+//     gzip is an error, and its connection is not reused.
+//
+// Natively (replay of counterexamples) the real google.golang.org/protobuf and compress/gzip run;
+// in the engine pb.Marshal/pb.Unmarshal and the gzip reader are replaced by the codec models at
+// the bottom of this file.
 
 import (
+	"bytes"
+	"compress/gzip"
 	"context"
 	"encoding/binary"
 	"errors"
@@ -532,8 +540,35 @@ func verifRowsListMatch(got []*command.QueryRows, r *verifRespVals) bool {
 	return same
 }
 
-// verifBackupData is what the leader streams after accepting a backup request.
-var verifBackupData = []byte{0x1f, 0x8b, 'b', 'a', 'c', 'k', 'u', 'p'}
+// verifBackupImage is the database image the leader backs up; verifBackupMember() is what it
+// streams after accepting a backup request: the image as one gzip member (natively produced by
+// compress/gzip, in the engine the gzip model's encoding, see the bottom of this file).
+var verifBackupImage = []byte("SQLite format 3\x00 image")
+
+func verifBackupMember() []byte {
+	if verifSymbolic() {
+		return verifGzModelMember(verifBackupImage)
+	}
+	var buf bytes.Buffer
+	zw := gzip.NewWriter(&buf)
+	if _, err := zw.Write(verifBackupImage); err != nil {
+		panic(err)
+	}
+	if err := zw.Close(); err != nil {
+		panic(err)
+	}
+	return buf.Bytes()
+}
+
+// what follows an accepted backup request
+const (
+	verifStWhole   = iota // the whole member; the connection stays open
+	verifStStall          // half the member, then silence past the deadline (the rest arrives late)
+	verifStReset          // four bytes (inside the gzip header), then the connection is reset
+	verifStClosed         // the whole member, then the leader closes the connection
+	verifStNotGzip        // ten bytes that are no gzip header
+	verifStreams
+)
 
 // verifBuildAnswer: the leader's answer to a decoded command.
 func verifBuildAnswer(t proto.Command_Type, ans int, r *verifRespVals) pb.Message {
@@ -616,7 +651,7 @@ type verifAttempt struct {
 	cmd          *proto.Command // what the leader decoded (nil: undecodable)
 	ans          int
 	delivery     int
-	stream       int // backup: 0 whole stream then EOF, 1 part then stall (rest late), 2 part then reset
+	stream       int // backup: verifSt...
 	rv           *verifRespVals
 	good         bool // request complete, answer (of any content) fully readable in time
 	pooled       bool // the connection was dialed by an earlier call and came back out of the pool
@@ -854,19 +889,24 @@ func (w *verifWorld) handle(c *verifConn, a *verifAttempt, payload []byte) {
 		if cmd.Type == proto.Command_COMMAND_TYPE_BACKUP_STREAM && a.ans == verifAnsOK {
 			c.streaming = true
 			if mode == verifModeFull {
-				a.stream = verifChoice(verifName("stream", a.n), 3)
+				a.stream = verifChoice(verifName("stream", a.n), verifStreams)
 			}
-			half := len(verifBackupData) / 2
+			member := verifBackupMember()
+			half := len(member) / 2
 			switch a.stream {
-			case 0:
-				c.rbuf = append(c.rbuf, verifBackupData...)
-				c.eof = true
-			case 1:
-				c.rbuf = append(c.rbuf, verifBackupData[:half]...)
-				c.late = append(c.late, verifBackupData[half:]...)
-			case 2:
-				c.rbuf = append(c.rbuf, verifBackupData[:half]...)
+			case verifStWhole:
+				c.rbuf = append(c.rbuf, member...)
+			case verifStStall:
+				c.rbuf = append(c.rbuf, member[:half]...)
+				c.late = append(c.late, member[half:]...)
+			case verifStReset:
+				c.rbuf = append(c.rbuf, member[:4]...)
 				c.reset = true
+			case verifStClosed:
+				c.rbuf = append(c.rbuf, member...)
+				c.eof = true
+			case verifStNotGzip:
+				c.rbuf = append(c.rbuf, []byte("not a gzip")...)
 			}
 		}
 	case verifDlLate:
@@ -911,6 +951,7 @@ const verifTimeout = 5 * time.Second
 
 func verifNewWorld(mode int) (*verifWorld, *Client) {
 	verifEncs = nil
+	verifGzRs = nil
 	verifFixedText = false
 	w := &verifWorld{mode: mode, budget: 1 << 30, timeout: 30 * time.Second, nres: 1}
 	cl := NewClient(&verifDialer{w: w}, w.timeout)
@@ -1101,14 +1142,18 @@ func verifCheckResult(w *verifWorld, k *verifCall) {
 	}
 	r := last.rv
 	if k.kind == verifKBackup {
-		if last.stream != 0 {
+		if last.stream != verifStWhole && last.stream != verifStClosed {
 			verifReach("backup-stream-cut")
 			verifAssert("C20b-backup-stream-failure-is-an-error", k.err != nil)
 			return
 		}
 		verifReach("backup-streamed")
 		verifAssert("C20b-answered-call-succeeds", k.err == nil)
-		verifAssert("C20b-backup-bytes-unchanged", verifBytesMatch(k.sink.b, verifBackupData))
+		if k.compress {
+			verifAssert("C20b-backup-is-the-leaders-compressed-stream", verifBytesMatch(k.sink.b, verifBackupMember()))
+		} else {
+			verifAssert("C20b-backup-is-the-leaders-image", verifBytesMatch(k.sink.b, verifBackupImage))
+		}
 		return
 	}
 	verifReach("answered")
@@ -1237,8 +1282,8 @@ func VerifC20bCancel() {
 	verifCheckInvariant(w, k)
 }
 
-// VerifC20bBackupPlain: a backup the caller wants uncompressed is refused or fails in transport
-// (the stream itself, gzip, is C21's subject): request, credentials, error text, connection.
+// VerifC20bBackupPlain: a backup the caller wants uncompressed (the client decodes the leader's
+// gzip member): request, credentials, error text, the image, the connection.
 func VerifC20bBackupPlain() {
 	verifPanicsAreViolations()
 	w, cl := verifNewWorld(verifModeFull)
@@ -1246,10 +1291,6 @@ func VerifC20bBackupPlain() {
 	k := verifNewCall(w, verifKBackup, verifAddrOf(0), 0, 0)
 	k.compress = false
 	verifDo(w, cl, k)
-	atts := w.attempts
-	if len(atts) == 1 && atts[0].good && atts[0].ans == verifAnsOK {
-		return // the gzip stream: outside this entry
-	}
 	verifCheckTraffic(w, k)
 	verifCheckResult(w, k)
 	verifCheckInvariant(w, k)
@@ -1491,4 +1532,134 @@ func verifPbUnmarshal(b []byte, m pb.Message) error {
 		return verifErrCodec
 	}
 	return nil
+}
+
+// ---------------------------------------------------------------------------
+// gzip model (symbolic run only; spec.json "models" for gzip.NewReader, (*gzip.Reader).Read,
+// Multistream, Close): a member is the ten header bytes compress/gzip itself writes, one length
+// byte, the content, one end byte. The reader takes exactly the member's bytes from its source,
+// reports a source that ends early as io.ErrUnexpectedEOF (io.EOF before the first byte), passes
+// other errors of the source on, and refuses anything else with gzip.ErrHeader / ErrChecksum.
+
+var verifGzHeader = []byte{0x1f, 0x8b, 8, 0, 0, 0, 0, 0, 0, 0xff}
+
+const verifGzEnd = 0xE0
+
+func verifGzModelMember(content []byte) []byte {
+	if len(content) > 255 {
+		panic("verif: gzip model content too long")
+	}
+	out := append([]byte{}, verifGzHeader...)
+	out = append(out, byte(len(content)))
+	out = append(out, content...)
+	return append(out, verifGzEnd)
+}
+
+type verifGzR struct {
+	z     *gzip.Reader
+	r     io.Reader
+	state int // 0 length byte, 1 content, 2 end byte, 3 done
+	left  int
+	err   error
+}
+
+var verifGzRs []*verifGzR
+
+func verifGzROf(z *gzip.Reader) *verifGzR {
+	for _, st := range verifGzRs {
+		if st.z == z {
+			return st
+		}
+	}
+	panic("verif: gzip.Reader not created by the model")
+}
+
+func verifGzFill(r io.Reader, p []byte, atStart bool) error {
+	n, err := io.ReadFull(r, p)
+	if err == nil {
+		return nil
+	}
+	if err == io.EOF || err == io.ErrUnexpectedEOF {
+		if atStart && n == 0 {
+			return io.EOF
+		}
+		return io.ErrUnexpectedEOF
+	}
+	return err
+}
+
+func verifGzNewReader(r io.Reader) (*gzip.Reader, error) {
+	var hdr [10]byte
+	if err := verifGzFill(r, hdr[:], true); err != nil {
+		return nil, err
+	}
+	if !bytes.Equal(hdr[:], verifGzHeader) {
+		return nil, gzip.ErrHeader
+	}
+	z := new(gzip.Reader)
+	verifGzRs = append(verifGzRs, &verifGzR{z: z, r: r})
+	return z, nil
+}
+
+func verifGzMultistream(z *gzip.Reader, ok bool) {}
+
+func verifGzReaderClose(z *gzip.Reader) error { return nil }
+
+func verifGzRead(z *gzip.Reader, p []byte) (int, error) {
+	st := verifGzROf(z)
+	if st.err != nil {
+		return 0, st.err
+	}
+	if len(p) == 0 {
+		return 0, nil
+	}
+	for {
+		switch st.state {
+		case 0:
+			var b [1]byte
+			if st.err = verifGzFill(st.r, b[:], false); st.err != nil {
+				return 0, st.err
+			}
+			st.left = int(b[0])
+			st.state = 1
+		case 1:
+			if st.left == 0 {
+				st.state = 2
+				continue
+			}
+			n := len(p)
+			if n > st.left {
+				n = st.left
+			}
+			k, err := st.r.Read(p[:n])
+			st.left -= k
+			if err != nil {
+				if err == io.EOF {
+					err = io.ErrUnexpectedEOF
+				}
+				st.err = err
+			}
+			if k > 0 {
+				return k, nil
+			}
+			if st.err != nil {
+				return 0, st.err
+			}
+		case 2:
+			var b [1]byte
+			if st.err = verifGzFill(st.r, b[:], false); st.err != nil {
+				return 0, st.err
+			}
+			if b[0] != verifGzEnd {
+				st.err = gzip.ErrChecksum
+				return 0, st.err
+			}
+			st.state = 3
+		default:
+			// one member only (the client switches multistream off; a following member is not
+			// part of the model)
+			st.err = io.EOF
+			return 0, st.err
+		}
+	}
 }
